@@ -61,13 +61,24 @@ def fault_locality(run, prog, RULE):
         else:
             ok = True
             why = "uncaught path: `if (current_heart_beat)` -> set_heart_beat(current_heart_beat, 0) -> current_heart_beat = 0 before the jump"
+            # reviewed exception: the error ends at a recovery point inside the LPC call chain (a protected call made by
+            # heart_beat() itself: `current_error_context->save_csp >= control_stack`), so heart_beat() goes on and is
+            # not at fault; the switch-off may be skipped on exactly that edge
+            contained = set()
+            for bid in eh.reachable():
+                c = eh.branch_cond(bid)
+                if c is None:
+                    continue
+                op, l, r = atom_of(c, True)
+                if op == "<" and r is not None and "save_csp" in show(l) and strip(r).get("n") == "control_stack":
+                    contained.add((bid, eh.blocks[bid].succ[1]))
             for lb, li, ln in final:
                 if not eh.dominates(B, lb.id):
                     ok, why = False, "the final longjmp (line %s) is not dominated by the heart beat test" % ln.get("l")
-                p = eh.reach_avoiding([blk.succ[0]], lambda x, t=lb.id: x.id == t, avoid_blocks=offs)
+                p = eh.reach_avoiding([blk.succ[0]], lambda x, t=lb.id: x.id == t, avoid_blocks=offs, avoid_edges=contained)
                 if p is not None:
                     ok, why = False, "path %s from the test's true edge reaches the jump without set_heart_beat(current_heart_beat, 0)" % p
-                p = eh.reach_avoiding([blk.succ[0]], lambda x, t=lb.id: x.id == t, avoid_blocks=clears)
+                p = eh.reach_avoiding([blk.succ[0]], lambda x, t=lb.id: x.id == t, avoid_blocks=clears, avoid_edges=contained)
                 if p is not None:
                     ok, why = False, "path %s reaches the jump with current_heart_beat still set" % p
             # order: switch off before clearing
